@@ -53,13 +53,15 @@ CLAIMED = {
         technique="Coq case-analysis proof of the POSIX table on the expandParam model + differential correspondence + table oracle",
         design="5 C13"),
     "C14": dict(
-        text=("Model of split/Expand's default mode and an independent specification (cut at every unquoted IFS character, keep pieces with a "
-              "character or a quoted part). Proved: a field of quoted segments is never cut; an empty IFS disables splitting. The full statement "
-              "split_model = split_spec is stated in Props/C14.v but NOT yet proved; it is decided on every run by evaluating the extracted "
-              "specification on the implementation's answers for all words of <=4 (quick) / <=6 (thorough) segments over 9 segment kinds x 7 IFS "
-              "settings plus random longer words, and by model correspondence."),
+        text=("Model of split/Expand's default mode (byte offsets, ws flag, trailing-field rule transcribed from expand.go) and an independent "
+              "specification (cut at every unquoted IFS character, keep pieces with a character or a quoted part). Proved, for every IFS value and "
+              "every field, valid UTF-8 or not: split_model = split_spec (C14_split_refines_spec; by an offset-free refinement of the inner loop, "
+              "then an invariant relating the last field + pending text to the specification's piece under construction); corollaries: quoted "
+              "segments are never cut, an empty IFS disables splitting. Tie to the code on every run: model correspondence and the extracted "
+              "specification evaluated on the implementation's answers for all words of <=4 (quick) / <=6 (thorough) segments over 9 segment kinds "
+              "x 7 IFS settings, random longer words, and values with invalid UTF-8 under IFS containing U+FFFD / invalid bytes (found X47)."),
         note=BASE_NOTE + "Modelled, not verified: unicode.IsSpace (White_Space list), utf8 decoding. Pathname expansion disabled as the property says.",
-        technique="Coq lemmas on the splitter model + differential correspondence + splitting specification extracted from Coq as oracle",
+        technique="Coq refinement proof (splitter model = cut-at-unquoted-IFS specification, all inputs) + differential correspondence + specification extracted from Coq as oracle",
         design="5 C14"),
     "C16": dict(
         text=("Model of Glob (component loop, literal fast path, directory scan with the hidden-name rule, separator search) over an abstract "
@@ -209,13 +211,15 @@ CLAIMED = {
         technique="Coq invariant proof on the printer's here-document bookkeeping + operation-replay correspondence + print/parse round trip under all styles",
         design="5 C05"),
     "C19": dict(
-        text=("Proved: Option.String is total on every bit combination (loop bound translated from the source on every run). NOT proved: totality of "
-              "printer / Pos / End / Expand on parser-produced ASTs and of Eval / Match / Glob on arbitrary strings; decided on every run in isolated "
-              "workers: every accepted source among all strings <=3 significant characters, an oddities corpus and generated programs through Pos/End "
-              "of every node, Fprint x 256 Configs, Expand x 8 modes x 3 option sets x 2 argument vectors; Eval / Match (16 modes) / Glob on all strings "
-              "<=2 symbols over a 31-symbol alphabet plus random longer ones; all 2^14 Option values."),
-        note=BASE_NOTE + "Absence of panics is observed, not proved, for the entry points other than Option.String.",
-        technique="Coq totality theorem for Option.String + downstream no-panic search in isolated workers",
+        text=("Proved: Option.String is total on every bit combination (loop bound translated from the source on every run); the model of Eval "
+              "(tokenizer, parser, evaluator) ends with a number or a documented error on every source text and every environment, never at a panic "
+              "site and never out of fuel (C19_eval_total), the model being compared with interp.Eval on every run. NOT proved: totality of printer / "
+              "Pos / End / Expand on parser-produced ASTs and of Match / Glob on arbitrary strings; decided on every run in isolated workers: every "
+              "accepted source among all strings <=3 significant characters, an oddities corpus and generated programs through Pos/End of every node, "
+              "Fprint x 256 Configs, Expand x 8 modes x 3 option sets x 2 argument vectors; Eval / Match (16 modes) / Glob on all strings <=2 symbols "
+              "over a 31-symbol alphabet plus random longer ones; all 2^14 Option values."),
+        note=BASE_NOTE + "Absence of panics is observed, not proved, for the entry points other than Option.String and Eval.",
+        technique="Coq totality theorems (Option.String, Eval model from source text) + model correspondence + downstream no-panic search in isolated workers",
         design="5 C19"),
 }
 
